@@ -9,6 +9,17 @@ ENGINE_NOTE = ("Lean kernel; axioms propext/Classical.choice/Quot.sound; the eng
                "Lean driver and an independent naive least-model oracle; rustc, syn/quote, hash maps (C19), petgraph (validated by validOrder) and the "
                "evaluation of embedded Rust expressions (theorems hold for every interpretation) are modelled, not verified.")
 CLAIMS = {
+ "C04": dict(
+   engine="tie-B-engine",
+   technique="Lean 4 proof that run() of a stratified program = least model with every agg/negation evaluated on the FINAL relation, each tuple once + compiled-program correspondence",
+   text="Lean 4 theorems for every stratified program with aggregation/negation (no lattices), every interpretation incl. arbitrary user aggregators, every "
+        "duplicate-free input: the list handed to an aggregator is a duplicate-free enumeration of exactly the relation's rows (agg_view_each_once); when the SCC "
+        "of an aggregating rule runs, the aggregated relation already has its final content (agg_sees_final); and run() computes exactly the least model in which "
+        "every agg / negation is evaluated against the final relation (run_agg_eq_model; from any well-formed value: run_agg_from_eq_model). The hypotheses are "
+        "needed: second_run_duplicates_agg_view is the kernel-checked witness of finding F2. Tied by compiled generated programs with count/sum/min/max/not at "
+        "stratum depth 1-3 over every mix of bound / wildcard / aggregated columns, vs model and stratified naive oracle; F2 and F15 are known findings whose "
+        "bug-faithful model predictions are matched exactly.",
+   design_ref="DESIGN.md §8 C04", note=ENGINE_NOTE + " Aggregation over lattices and parallel mode (F5) are covered by the tie of C03/C02 only."),
  "C18": dict(
    engine="tie-C-ds",
    technique="Lean 4 theorems over models of uf.rs / trrel_union_find.rs + exhaustive and random op-history correspondence (tie C) + closure/partition oracle",
